@@ -42,7 +42,17 @@ def handleEnc (args : List String) : String :=
     let cfg : Config := { ec := ec, eci := eci, gs1 := (argOf args "gs1") == some "1",
                           version := (argInt args "ver").map Int.toNat, mask := argNat args "mask" }
     match refEncode m bytes cfg with
-    | some s => s!"ok {m.name} v={s.version} mask={s.mask} {showMatrix s.matrix}"
+    | some s =>
+      -- the standard leaves ties between equally good masks open: when the library chose another
+      -- mask (`gomask`) whose penalty equals the minimum, judge its symbol with that mask
+      let s := match cfg.mask, argNat args "gomask" with
+        | none, some g =>
+          if g != s.mask && g < 8 then
+            let alt := refMatrix s.version ec g s.codewords
+            if penalty alt == penalty s.matrix then { s with mask := g, matrix := alt } else s
+          else s
+        | _, _ => s
+      s!"ok {m.name} v={s.version} mask={s.mask} {showMatrix s.matrix}"
     | none => "ERR:writer"
   | _, _ => "bad-op"
 
